@@ -1,0 +1,109 @@
+// +build verif
+
+// Accessors used by the external verification harness (/verif, property C03
+// part 2: "the vote set attached to a commit always yields a header that every
+// verifier accepts").  Compiled only with -tags verif; nothing here changes
+// behaviour: a constructor that wires the consensus objects of one mining node
+// exactly as Server.StartMining does (same constructors, same function values)
+// but starts no timer, subscription or goroutine, and thin wrappers around the
+// unexported handlers the event loops call.
+
+package ucon
+
+import (
+	"crypto/ecdsa"
+	"math/big"
+
+	lru "github.com/hashicorp/golang-lru"
+	"github.com/youchainhq/go-youchain/bls"
+	"github.com/youchainhq/go-youchain/consensus"
+	"github.com/youchainhq/go-youchain/crypto"
+	secp256k1VRF "github.com/youchainhq/go-youchain/crypto/vrf/secp256k1"
+	"github.com/youchainhq/go-youchain/event"
+	"github.com/youchainhq/go-youchain/youdb"
+)
+
+// VerifC03P2Node is one mining node without its goroutines.
+type VerifC03P2Node struct {
+	Server   *Server
+	Voter    *Voter
+	Handler  *MessageHandler
+	Proposal *Proposal
+}
+
+// VerifC03P2NewNode = NewVRFServer + SetValKey + the wiring statements of
+// StartMining, with the round position StartNewRound(true) would compute from
+// the chain head given explicitly (round, roundIndex).  Everything the node
+// posts goes to mux; the caller plays the event loops (see the methods below).
+func VerifC03P2NewNode(db youdb.Database, chain consensus.ChainReader, inserter consensus.MineInserter, mux *event.TypeMux,
+	sk *ecdsa.PrivateKey, blsSk bls.SecretKey, round *big.Int, roundIndex uint32) (*VerifC03P2Node, error) {
+	s, err := NewVRFServer(db)
+	if err != nil {
+		return nil, err
+	}
+	vrfSk, err := secp256k1VRF.NewVRFSigner(sk)
+	if err != nil {
+		return nil, err
+	}
+	// SetValKey
+	s.mainAddress = crypto.PubkeyToAddress(sk.PublicKey)
+	s.rawSk = sk
+	s.vrfSk = vrfSk
+	s.blsSk = blsSk
+	// StartMining
+	s.quitChan = make(chan bool, 1)
+	s.eventMux = mux
+	s.chain = chain
+	s.inserter = inserter
+	s.timer = NewTimerManager(s.processTimeout, s.processStepEvent) // never started
+	s.sortitionMgr = NewSortitionManager(s.vrfSk, s.getLookbackStakeInfo, s.getLookBackSeed, s.mainAddress)
+	s.proposal = NewProposal(mux, s.verifyPriority, s.startVote)
+	s.voter = NewVoter(s.db, s.rawSk, s.blsSk, mux, s.verifySortition,
+		s.sortitionMgr.isValidator, s.proposal.blockhashWithMaxPriority,
+		s.proposal.getBlockInCache, s.getLookbackStakeInfo, s.getLookbackValidatorsCount,
+		s)
+	s.blsVerifier = s.voter.blsMgr.Verifier
+	s.msgHandler = NewMessageHandler(s.rawSk, mux, s.GetLookBackValidator,
+		s.processReceiveMsgEvent,
+		s.proposal.processPriorityMessage, s.proposal.processProposedBlockMsg, s.voter.processVoteMsg)
+	s.vldReaderCache, _ = lru.New(stakingCacheLimit)
+	// StartNewRound(true) / clearData: round position and the parameters of the round
+	s.currentRound = new(big.Int).Set(round)
+	s.roundIndex = roundIndex
+	s.nextIndex = roundIndex
+	s.sortitionMgr.ClearStepView(s.currentRound)
+	yp, err := chain.VersionForRound(round.Uint64())
+	if err != nil {
+		return nil, err
+	}
+	s.currRoundParams = yp
+	s.msgHandler.UpdateAllowedFutureMsgTime(yp.AllowedFutureBlockTime)
+	// Voter.Start(s) without the subscription and the event loop
+	s.voter.SetLookBackMgr(s)
+	return &VerifC03P2Node{Server: s, Voter: s.voter, Handler: s.msgHandler, Proposal: s.proposal}, nil
+}
+
+// Step is what the step timer does: Server.processStepEvent posts the
+// ContextChangeEvent of the node's current (round, round index) on the mux.
+func (n *VerifC03P2Node) Step(step uint32) { n.Server.processStepEvent(step) }
+
+// SetRoundIndex moves the node to another round index of its round (the
+// position part of Server.NextRound -> StartNewRound(false) -> clearData).
+func (n *VerifC03P2Node) SetRoundIndex(ri uint32) {
+	n.Server.roundIndex = ri
+	n.Server.nextIndex = ri
+}
+
+// DeliverContext hands a ContextChangeEvent to its three subscribers
+// (MessageHandler, Proposal, Voter event loops), synchronously.
+func (n *VerifC03P2Node) DeliverContext(ev ContextChangeEvent) {
+	n.Handler.updateContext(ev)
+	n.Proposal.updateContext(ev)
+	n.Voter.updateContext(ev)
+}
+
+// Commit is the Server event loop's reaction to a CommitEvent.
+func (n *VerifC03P2Node) Commit(ev CommitEvent) { n.Server.commit(ev) }
+
+// UpdateBlockHeader is the Server event loop's reaction to an UpdateExistedHeaderEvent.
+func (n *VerifC03P2Node) UpdateBlockHeader(ev UpdateExistedHeaderEvent) { n.Server.updateBlockHeader(ev) }
